@@ -7,7 +7,7 @@ inconclusive.  Also IL-vs-IL (two layouts / two histories) with the same machine
 import time
 import z3
 from .dom import Z3Dom, ConcDom, CBV
-from .ilsem import Env, State, ILExec, ILSortError, ModelGap, ILSyntaxError
+from .ilsem import Env, State, ILExec, ILSortError, ModelGap, ILSyntaxError, ILUninit
 from .cref import CExec, Unsupported, CSyntaxError, optable, ctype_of
 
 TEMP_PREFIXES = ("h_tmp",)
@@ -260,11 +260,13 @@ def check_pair(ctext, iltext, il_subs, res, opts=None, optab=None):
             return Result("sort", str(e))
         except ILSyntaxError as e:
             return Result("syntax", str(e))
+        except ILUninit as g:
+            # a definite ordering defect if the effect does write this local somewhere (or it is a compiler temporary)
+            if g.name.startswith(TEMP_PREFIXES) or g.name == "ret_val" or f'SETL("{g.name}"' in iltext:
+                return Result("uninit", f"local {g.name} is read before anything has written it")
+            return Result("gap", "IL: " + str(g))
         except ModelGap as g:
-            msg = str(g)
-            if "never-set local" in msg and any(p in msg for p in TEMP_PREFIXES + ("ret_val",)):
-                return Result("uninit", msg)
-            return Result("gap", "IL: " + msg)
+            return Result("gap", "IL: " + str(g))
         try:
             diffs = observables(D, env, ist, cst, fr, cscope, opts)
         except ILSortError as e:
